@@ -181,6 +181,14 @@ def _res(name, ok, line=0, note=''):
     return r
 
 
+def _shape(name, good, bad=False, line=0, note=''):
+    """good: the shape the argument needs is present; bad: a shape known to break the property is present; neither:
+    the code was restructured - undecided, never a violation."""
+    r = smt.shape(name, good, bad, line, note)
+    r.replay_fn = _witness
+    return r
+
+
 def static_choreo(repo):
     mod = extract.load('choreo')
     out = []
@@ -193,9 +201,10 @@ def static_choreo(repo):
         out.append(_res(f'choreo.quantise.{cls.lower()}_constants', f == factor and m == maxv, note=f'{f}, {m}'))
     # decoder divides by the same factor the encoder multiplies with
     tp = ast.unparse(mod.find('Tag.parse_binary'))
-    out.append(_res('choreo.quantise.tag_decoder_divides_by_the_factor', 'value / cls._FACTOR' in tp))
+    out.append(_shape('choreo.quantise.tag_decoder_divides_by_the_factor', 'value / cls._FACTOR' in tp,
+                      'value / 255' in tp or 'value * cls._FACTOR' in tp))
     cp = ast.unparse(mod.find('Curve.parse_binary'))
-    out.append(_res('choreo.quantise.ramp_decoder_divides_by_255', 'value / 255.0' in cp))
+    out.append(_shape('choreo.quantise.ramp_decoder_divides_by_255', 'value / 255.0' in cp, 'value / 256' in cp or 'value / 254' in cp))
     # the range of AbsoluteTag is really declared (attrs only sees fields of decorated classes)
     at = mod.classdef('AbsoluteTag')
     decorated = any('attrs.define' in ast.unparse(d) or 'attrs.frozen' in ast.unparse(d) for d in at.decorator_list)
@@ -206,7 +215,8 @@ def static_choreo(repo):
     wsrc, rsrc = ast.unparse(ex), ast.unparse(pa)
     w_ok = "file.write(b'\\x01')" in wsrc and "struct.pack('<hh', add_to_pool(self.tag_name or ''), add_to_pool(self.tag_wav_name or ''))" in wsrc
     r_ok = "file.read(1) != b'\\x00'" in rsrc and "binformat.struct_read('<hh', file)" in rsrc
-    out.append(_res('choreo.relative_tag_record_layout_agrees', w_ok and r_ok, ex.lineno))
+    out.append(_shape('choreo.relative_tag_record_layout_agrees', w_ok and r_ok,
+                      "'<Bhh'" in wsrc and "struct_read('<hh'" in rsrc, ex.lineno))
     # scenes.image: sorted by checksum before writing
     sv = mod.find('save_scenes_image_sync')
     ssrc = ast.unparse(sv)
@@ -214,10 +224,12 @@ def static_choreo(repo):
                  and 'checksum' in ast.unparse(n)]
     first_write = min([n.lineno for n in ast.walk(sv) if isinstance(n, ast.Call) and ast.unparse(n.func).endswith('.write')]
                       or [10 ** 9])
-    out.append(_res('choreo.image_entries_sorted_by_checksum_before_writing', bool(sort_line) and sort_line[0] < first_write,
-                    sv.lineno, ssrc[:0]))
+    sorts_somehow = 'checksum' in ssrc and ('.sort(' in ssrc or 'sorted(' in ssrc)
+    out.append(_shape('choreo.image_entries_sorted_by_checksum_before_writing', bool(sort_line) and sort_line[0] < first_write,
+                      not sorts_somehow, sv.lineno))
     # text writer: every "{X}" interpolation inside double quotes is escape_text(X) or a number/enum
     bad = []
+    unrecognised = []
     count = 0
     for fn in [n for n in ast.walk(mod.tree) if isinstance(n, ast.FunctionDef) and n.name == 'export_text']:
         for js in [n for n in ast.walk(fn) if isinstance(n, ast.JoinedStr)]:
@@ -236,8 +248,10 @@ def static_choreo(repo):
                 if re.fullmatch(r'(self|sample|tag|track)\.(pitch|yaw|loop_count|curve_type|value|time)', src) or \
                         src.startswith(('CAPTION_TYPE_TO_NAME[', 'EVENT_TYPE', 'self.type', 'self.loop_count')):
                     continue        # numbers and enum names
-                bad.append((js.lineno, src))
-    out.append(_res('choreo.text_strings_are_escaped', count >= 8 and not bad, bad[0][0] if bad else 0, str(bad[:4])))
+                (bad if src in ('self.cc_token', 'key', 'self.name', 'tag.name', 'self.map_name', 'self.parameters[0]') else
+                 unrecognised).append((js.lineno, src))
+    out.append(_shape('choreo.text_strings_are_escaped', count >= 8 and not bad and not unrecognised, bool(bad),
+                      bad[0][0] if bad else 0, str((bad or unrecognised)[:4])))
     return out
 
 
@@ -246,25 +260,29 @@ def static_small(repo):
     snd = extract.load('sndscript').find('Sound.export')
     src = ast.unparse(snd)
     bare = [m for m in re.findall(r"\\t(soundlevel|volume|pitch) \{join_float", src)]
-    out.append(_res('sndscript.ranges_are_written_quoted', not bare and src.count('"{join_float(') == 3, snd.lineno, str(bare)))
+    out.append(_shape('sndscript.ranges_are_written_quoted', not bare and src.count('"{join_float(') == 3, bool(bare), snd.lineno,
+                      str(bare)))
     vmt = extract.load('vmt')
     ex = vmt.find('Material.export')
     esrc = ast.unparse(ex)
     pa = ast.unparse(vmt.find('Material.parse'))
     reader_no_esc = 'allow_escapes=False' in pa
     writes_escaped = '.serialise(' in esrc or 'escape_text(' in esrc
-    out.append(_res('vmt.writer_produces_no_escapes_the_reader_would_not_undo', not (reader_no_esc and writes_escaped), ex.lineno))
-    out.append(_res('vmt.shader_name_is_quoted_when_needed', 'f.write(self.shader +' not in esrc, ex.lineno))
+    out.append(_shape('vmt.writer_produces_no_escapes_the_reader_would_not_undo', not (reader_no_esc and writes_escaped),
+                      reader_no_esc and writes_escaped, ex.lineno))
+    out.append(_shape('vmt.shader_name_is_quoted_when_needed', 'quote(self.shader)' in esrc, 'f.write(self.shader +' in esrc, ex.lineno))
     smd = extract.load('smd').find('Mesh.export')
     ssrc = ast.unparse(smd)
-    out.append(_res('smd.link_count_is_separated_from_the_uv', "b'%i' % (len(vert.links)" not in ssrc and "b' %i' % (len(vert.links)" in ssrc,
-                    smd.lineno))
-    out.append(_res('smd.bones_are_numbered_in_a_reproducible_order', 'set(self.bones.values())' not in ssrc, smd.lineno))
+    out.append(_shape('smd.link_count_is_separated_from_the_uv', "b' %i' % (len(vert.links)" in ssrc,
+                      "b'%i' % (len(vert.links)" in ssrc, smd.lineno))
+    out.append(_shape('smd.bones_are_numbered_in_a_reproducible_order', 'set(self.bones.values())' not in ssrc,
+                      'set(self.bones.values())' in ssrc, smd.lineno))
     pcf = extract.load('particles')
     psrc = ast.unparse(pcf.find('Particle.export'))
-    out.append(_res('pcf.attribute_names_keep_their_case', '.name.casefold()] = copy.deepcopy' not in psrc))
+    out.append(_shape('pcf.attribute_names_keep_their_case', '.name.casefold()] = copy.deepcopy' not in psrc,
+                      '.name.casefold()] = copy.deepcopy' in psrc))
     rsrc = ast.unparse(pcf.find('Particle.parse'))
-    out.append(_res('pcf.element_name_is_not_copied_into_options', "copy.deepcopy(dict(ele))" not in rsrc and "!= 'name'" in rsrc))
+    out.append(_shape('pcf.element_name_is_not_copied_into_options', "!= 'name'" in rsrc, "copy.deepcopy(dict(ele))" in rsrc))
     return out
 
 
